@@ -240,6 +240,25 @@ PROPS["C20"] = dict(
     trusted=COMMON_TRUST,
 )
 
+PROPS["C12"] = dict(
+    units=[("verus", "format")],
+    explanation="format_buf (the specifier state machine) is verified against a reference renderer written as a spec function over the format string: literal text, {{ and }} escapes, and "
+                "specifiers {[index][:[[fill]<|>][width][b|o|x|X]]} read by a five-position grammar automaton (the character directly before < or > is the fill); unindexed specifiers take "
+                "arguments left to right, index n selects the (n+1)-th value, a specifier without a matching argument / an unparsable width or index / a number format on a non-integer is an error. "
+                "For every format string inside that grammar the collected text equals the reference rendering (loop invariant: collected text + reference rendering of the rest = reference rendering of the whole, "
+                "with a simulation relation between the grammar position and the function's flags and buffers); outside the grammar nothing is claimed. format_obj is verified against the one-specifier "
+                "rendering (number formats, default/explicit justification, fill, width). format returns that text; print/println/eprint/eprintln write it (plus a newline) to the right stream, "
+                "nothing to the other, and return its length in bytes. Collector::write_str appends its argument.",
+    not_covered=["format strings outside the grammar (stray '}', unterminated '{', '{' inside a specifier, characters after the number format): behaviour unspecified by the reference",
+                 "the digits std produces for {:b} {:o} {:x} {:X} and Display (uninterpreted on both sides)",
+                 "width counts bytes (str::len); equal to characters for the ASCII text the property quantifies over",
+                 "negative integers under a number format are shown as their 64-bit two's complement (`as usize`), on both sides"],
+    assumptions=["write!(collector, ..) reaches Collector::write_str exactly once with the formatted text and cannot fail (std::fmt)",
+                 "UTF-8 length is additive; the text held in memory is shorter than 2^62 bytes (axioms axiom_blen_add, axiom_blen_basic, axiom_in_memory)",
+                 "str::parse::<usize>, str::repeat, String::len, format!({}{}) behave as their shim contracts say"],
+    trusted=COMMON_TRUST,
+)
+
 # every property not claimed above, with the reason (kept current; see DESIGN.md §6)
 NOT_APPLICABLE = {
     "C01": "not built yet (scanner/parser units pending)",
